@@ -201,6 +201,9 @@ def _pow_atom(a, n):
     k = (_key(Q.of(a)), _key(Q.of(n)))
     if k in _POW:
         return _POW[k]
+    kneg = (_key(Q.of(a)), _key(-Q.of(n)))
+    if kneg in _POW:
+        return _POW[kneg].inv()
     v = CTX.new('pow')
     CTX.axiom(v > 0, 'x**alpha atom > 0 (positive base)')
     _POW[k] = Q(v)
